@@ -22,6 +22,23 @@ SHARDS = {"quick": 8, "thorough": 16}
 BUDGET = {"quick": 25.0, "thorough": 420.0}
 REQUIRE = {
     "quick": {
+        "cover:page_key_on_tall_unselectable_focus": 150,
+        "cover:list_with_repeated_widget_object": 1500,
+        "cover:repeated_widget_object_visible_twice": 600,
+        "eval:mouse1_on_repeated_widget_object": 50,
+        "cover:refill_after_emptying": 600,
+        "cover:refill_by_iadd_or_extend_after_emptying_with_high_focus": 150,
+        "op:iadd": 400,
+        "op:extend": 150,
+        "op:imul0": 100,
+        "op:imul2": 40,
+        "op:setslice": 400,
+        "op:pop": 60,
+        "op:remove": 30,
+        "op:reverse": 30,
+        "op:sort": 15,
+        "op:dup": 100,
+        "op:clearm": 100,
         "eval:render_no_raise": 10000,
         "eval:slice": 10000,
         "eval:focus_row_visible": 8000,
@@ -49,6 +66,23 @@ REQUIRE = {
         "reach:widget.listbox.ListBox._set_focus_valign_complete": 1000
     },
     "thorough": {
+        "cover:page_key_on_tall_unselectable_focus": 1500,
+        "cover:list_with_repeated_widget_object": 15000,
+        "cover:repeated_widget_object_visible_twice": 6000,
+        "eval:mouse1_on_repeated_widget_object": 500,
+        "cover:refill_after_emptying": 6000,
+        "cover:refill_by_iadd_or_extend_after_emptying_with_high_focus": 1500,
+        "op:iadd": 4000,
+        "op:extend": 1500,
+        "op:imul0": 1000,
+        "op:imul2": 400,
+        "op:setslice": 4000,
+        "op:pop": 600,
+        "op:remove": 300,
+        "op:reverse": 300,
+        "op:sort": 150,
+        "op:dup": 1000,
+        "op:clearm": 1000,
         "eval:render_no_raise": 100000,
         "eval:slice": 100000,
         "eval:focus_row_visible": 80000,
@@ -83,14 +117,18 @@ RULE = (
     "SimpleFocusListWalker, dict-backed sparse-position walkers implementing list-walker API v2 (+positions) and v1 only; "
     "box (3..20)x(1..10); ops: keys up/down/page up/page down/home/end/x, mouse press/release buttons 1/4/5 at random "
     "cells, set_focus(pos, coming_from), set_focus_valign(top/middle/bottom/relative pct), resize, walker "
-    "insert/delete/replace/clear, ListBox focus flag toggle; a case = the whole JSON recipe; distinct = distinct recipes; "
+    "insert/delete/replace/del w[:]/clear()/+=/extend/*= 0,1,2/slice assignment/pop/remove/reverse/sort (list calls on the two "
+    "bundled walkers, mapped to insert/delete on the dict walkers, mirrored in the harness's Python list), empty-then-refill "
+    "sequences after moving the focus to a high index, in 25% of the histories the SAME widget object placed at several "
+    "positions (recipes sharing an id; op dup = w.insert(j, w[i])), in 8% a 1-3 item list around a tall unselectable item "
+    "with mostly paging/scrolling keys and button-1 presses, ListBox focus flag toggle; a case = the whole JSON recipe; distinct = distinct recipes; "
     "non-trivial = at least one render was judged; a history stops at its first failure; per shard the first 3 (quick) / 8 "
     "(thorough) failures of each base signature (clause + kind of mismatch or exception site) are shrunk and classified, "
     "further ones are only counted (failure:* counters)"
 )
 ASSUMES = [
     "the items' own renderings are trusted: 'vertical concatenation of the items' renderings' is built from item.render((maxcol,), focus) of the real Edit/Pile items (called after ListBox.render) and from the spies' pure row function",
-    "the walker is trusted for which item is the focus (walker.get_focus()); the order of items is the harness's own mirrored Python list",
+    "the walker is trusted for which POSITION is the focus (walker.get_focus()); items are positions (the same widget object may sit at several), the order of items is the harness's own mirrored Python list; focus and mouse clauses are judged by position",
     "wrap_around=False walkers only (a cyclic list has no 'first'/'last' item)",
     "a focus item with 0 rows has no row to show: the 'one focus row visible' clause is not evaluated for it (counted as na:focus_has_zero_rows); all other clauses still apply",
     "when row texts are not unique (blank Edit lines) every consistent slice position is tried and the clauses are required of at least one (counted as ambiguous_window)",
@@ -99,8 +137,10 @@ ASSUMES = [
     "mouse-press clause is judged only when the press immediately follows a judged render at the same size/focus flag, so 'visible item at that cell' is read from the canvas",
 ]
 
+MUTATORS = ("insert", "delete", "replace", "clear", "clearm", "iadd", "extend", "imul", "setslice", "pop", "remove", "reverse", "sort", "dup")
+GROW_LIMIT = 30
 KEYS = ["up", "down", "page up", "page down", "home", "end", "x"]
-IDS = string.ascii_lowercase + string.ascii_uppercase
+IDS = string.ascii_lowercase + string.ascii_uppercase + "#$%&*+=?@~^!"
 HEIGHTS = [1] * 8 + [2] * 3 + [3] * 3 + [5] * 2 + [12] * 2 + [25] * 2
 
 
@@ -123,7 +163,7 @@ def gen_item(rng, ident, zero_mode):
     return {"t": "edit", "id": ident, "lines": lines, "pos": rng.randint(0, 3 * lines)}
 
 
-def gen_op(rng, next_id, zero_mode):
+def gen_op(rng, new_item, repeat_mode):
     r = rng.random()
     if r < 0.40:
         return ["key", rng.choice(KEYS)]
@@ -137,33 +177,110 @@ def gen_op(rng, next_id, zero_mode):
         return ["valign", ["relative", rng.choice([0, 10, 33, 50, 75, 100])] if v == "rel" else v]
     if r < 0.78:
         return ["resize", rng.randint(3, 20), rng.randint(1, 10)]
-    if r < 0.85:
-        return ["insert", rng.randint(0, 12), gen_item(rng, next_id(), zero_mode)]
-    if r < 0.91:
-        return ["delete", rng.randint(0, 11)]
-    if r < 0.95:
-        return ["replace", rng.randint(0, 11), gen_item(rng, next_id(), zero_mode)]
     if r < 0.96:
-        return ["clear"]
+        # list-mutating calls on the walker (mirrored in the harness's Python list)
+        m = rng.random()
+        if repeat_mode and m < 0.2:
+            return ["dup", rng.randint(0, 11), rng.randint(0, 12)]
+        m = rng.random()
+        if m < 0.24:
+            return ["insert", rng.randint(0, 12), new_item()]
+        if m < 0.46:
+            return ["delete", rng.randint(0, 11)]
+        if m < 0.60:
+            return ["replace", rng.randint(0, 11), new_item()]
+        if m < 0.64:
+            return [rng.choice(["clear", "clearm"])]
+        if m < 0.72:
+            return ["iadd", [new_item() for _ in range(rng.randint(0, 3))]]
+        if m < 0.77:
+            return ["extend", [new_item() for _ in range(rng.randint(0, 3))]]
+        if m < 0.82:
+            return ["imul", rng.choice([0, 1, 2, 2])]
+        if m < 0.90:
+            sl = rng.choice([[None, None], [rng.randint(-3, 13), rng.randint(-3, 13)], [rng.randint(0, 12), None], [None, rng.randint(0, 12)]])
+            return ["setslice", sl[0], sl[1], [new_item() for _ in range(rng.choice([0, 0, 1, 2, 3]))]]
+        if m < 0.94:
+            return ["pop", rng.choice([-1, rng.randint(0, 11)])]
+        if m < 0.96:
+            return ["remove", rng.randint(0, 11)]
+        if m < 0.98:
+            return ["reverse"]
+        if m < 0.99:
+            return ["sort"]
+        return ["dup", rng.randint(0, 11), rng.randint(0, 12)]
     if r < 0.98:
         return ["lbfocus", rng.random() < 0.5]
     return ["render"]
 
 
+def gen_refill(rng, new_item):
+    """empty-then-refill: focus moved to a high index, list emptied by one of the calls a user has for that,
+    refilled with a few items by one of the growing calls"""
+    ops = [rng.choice([["set_focus", rng.randint(4, 11), rng.choice([None, "above", "below"])], ["key", "end"], ["key", "page down"]])]
+    if rng.random() < 0.8:
+        ops.append(["render"])
+    ops.append(rng.choice([["clear"], ["clearm"], ["setslice", None, None, []], ["imul", 0], ["setslice", 0, None, []]]))
+    if rng.random() < 0.5:
+        ops.append(["render"])
+    k = rng.choice(["iadd", "iadd", "iadd", "extend", "setslice", "insert"])
+    items = [new_item() for _ in range(rng.randint(1, 4))]
+    if k == "setslice":
+        ops.append(["setslice", None, None, items])
+    elif k == "insert":
+        ops.append(["insert", 0, items[0]])
+    else:
+        ops.append([k, items])
+    ops.append(["render"])
+    return ops
+
+
 def gen_case(rng, max_ops):
     ids = iter(IDS)
-
-    def next_id():
-        return next(ids)
-
     zero_mode = rng.random() < 0.35
-    n = 0 if rng.random() < 0.03 else rng.randint(1, 12)
-    items = [gen_item(rng, next_id(), zero_mode) for _ in range(n)]
+    repeat_mode = rng.random() < 0.25
+    pool = []
+
+    def new_item():
+        # in repeat mode an item may be an earlier recipe again: the SAME widget object at another position
+        if repeat_mode and pool and rng.random() < 0.3:
+            sel = [r for r in pool if r["t"] in ("cur", "edit") or r.get("sel")]
+            return dict(rng.choice(sel if sel and rng.random() < 0.7 else pool))
+        r = gen_item(rng, next(ids), zero_mode)
+        if repeat_mode and r["t"] in ("spy", "cur") and r["h"] > 3 and rng.random() < 0.7:
+            r["h"] = rng.choice([1, 1, 2])  # several small items visible at once
+        pool.append(r)
+        return r
+
     ops = []
-    nops = rng.randint(max(3, max_ops // 3), max_ops)
+    items = []
+    # scroll mode: a short list around a tall unselectable item, mostly paging / line scrolling inside it and
+    # button-1 presses (the ListBox scrolls by shifting the focus item, no focus change)
+    scroll_mode = rng.random() < 0.08
     try:
+        n = 0 if rng.random() < 0.03 else rng.randint(1, 12)
+        if scroll_mode:
+            n = rng.randint(1, 3)
+        items = [new_item() for _ in range(n)]
+        if scroll_mode:
+            items[rng.randrange(n)] = {"t": "spy", "id": next(ids), "h": rng.choice([12, 25]), "sel": False, "nx": 0}
+        nops = rng.randint(max(3, max_ops // 3), max_ops)
         for _ in range(nops):
-            ops.append(gen_op(rng, next_id, zero_mode))
+            if scroll_mode and rng.random() < 0.8:
+                m = rng.random()
+                if m < 0.55:
+                    ops.append(["key", rng.choice(["page down", "page up", "down", "up"])])
+                elif m < 0.85:
+                    ops.append(["mouse", "mouse press", 1, rng.randint(0, 19), rng.randint(0, 9)])
+                else:
+                    ops.append(["set_focus", rng.randint(0, 11), rng.choice([None, "above", "below"])])
+                if rng.random() < 0.85:
+                    ops.append(["render"])
+                continue
+            if rng.random() < 0.05:
+                ops.extend(gen_refill(rng, new_item))
+                continue
+            ops.append(gen_op(rng, new_item, repeat_mode))
             if ops[-1][0] != "render" and rng.random() < 0.85:
                 ops.append(["render"])
     except StopIteration:
@@ -192,6 +309,8 @@ def opkind(op):
         return f"set_focus:{op[2]}"
     if k == "valign":
         return "valign:" + (op[1] if isinstance(op[1], str) else "relative")
+    if k == "imul":
+        return f"imul{op[1]}"
     return k
 
 
@@ -233,6 +352,7 @@ class Run:
         self.log = []
         self.size = tuple(case["size"])
         self.lbfocus = bool(case["lbfocus"])
+        self.objs = {}
         self.model = [self.make_item(r) for r in case["items"]]
         wk = case["walker"]
         self.wk = wk
@@ -253,11 +373,16 @@ class Run:
         self.renders = 0
         self.held = None
         self.pre_focus = None
+        self.emptied_with_focus = None
 
     # ---- items
     def make_item(self, r):
+        """one widget object per ident: a recipe whose id was already built yields the SAME object again
+        (the same widget sitting at several positions of the list)"""
         urwid, S = self.urwid, self.S
         t = r["t"]
+        if r["id"] in self.objs:
+            return self.objs[r["id"]]
         if t == "spy":
             w = S.SpyFlow(r["id"], r["h"], r["sel"], r.get("nx", 0), self.log)
         elif t == "cur":
@@ -271,6 +396,7 @@ class Run:
         else:
             raise ValueError(t)
         w._c07 = r
+        self.objs[r["id"]] = w
         return w
 
     def item_rows(self, w, maxcol, focus):
@@ -291,19 +417,32 @@ class Run:
             return idx
         return self.walker.pos_of_index(idx)
 
+    def focus_index(self):
+        """(focus widget, index of the focus POSITION in the mirrored list or None).  Items are positions:
+        the same widget object may sit at several of them."""
+        w, pos = self.walker.get_focus()
+        if w is None:
+            return None, None
+        if self.wk in ("slw", "sflw"):
+            idx = pos
+        else:
+            idx = self.walker.keys.index(pos) if pos in self.walker.keys else None
+        if not isinstance(idx, int) or not 0 <= idx < len(self.model) or self.model[idx] is not w:
+            return w, None
+        return w, idx
+
     # ---- classification of the state at failure
     def state_sig(self):
         maxcol, maxrow = self.size
         try:
-            w, _pos = self.walker.get_focus()
+            w, fi = self.focus_index()
         except Exception:  # noqa: BLE001
-            w = None
+            w, fi = None, None
         hs = [self.item_height(it, maxcol) for it in self.model]
-        if w is None or not any(it is w for it in self.model):
+        if w is None or fi is None:
             fclass = "none"
             fi = None
         else:
-            fi = next(i for i, it in enumerate(self.model) if it is w)
             h = hs[fi]
             hc = "h0" if h == 0 else ("h1" if h == 1 else ("tall" if h > maxrow else "multi"))
             t = w._c07["t"]
@@ -326,7 +465,8 @@ class Run:
                             dist += hs[j]
                             if dist >= maxrow:
                                 break
-        return {"op": opkind(self.last_op), "zero": zero, "focus": fclass}
+        repeat = len({id(it) for it in self.model}) < len(self.model)
+        return {"op": opkind(self.last_op), "zero": zero, "focus": fclass, "repeat": repeat}
 
     # ---- ops
     def apply(self, op):
@@ -348,6 +488,8 @@ class Run:
                 self.count("skipped:key_while_unfocused")
                 return
             self.count("eval:keypress_no_raise")
+            if op[1] in ("page down", "page up") and self.state_sig()["focus"] == "unsel,tall":
+                self.count("cover:page_key_on_tall_unselectable_focus")
             try:
                 lb.keypress(self.size, op[1])
             except Exception as e:  # noqa: BLE001
@@ -359,22 +501,26 @@ class Run:
             target = None
             if layout is not None and ev == "mouse press" and button == 1:
                 cands, owners, _shown = layout
-                ts = {id(owners[p + row][0]) if row < kk else None for p, kk in cands}
+                ts = {owners[p + row][2] if row < kk else None for p, kk in cands}
                 if len(ts) == 1 and None not in ts:
-                    target = owners[cands[0][0] + row][0]
+                    target = owners[cands[0][0] + row]
             self.count("eval:mouse_no_raise")
             try:
                 lb.mouse_event(self.size, ev, button, col, row, self.lbfocus)
             except Exception as e:  # noqa: BLE001
                 raise Failure("raise", exckind(e), f"mouse_event({self.size},{ev!r},{button},{col},{row},{self.lbfocus}) raised {type(e).__name__}: {e}\n{traceback.format_exc(limit=8)}") from None
-            if target is not None and target.selectable():
+            if target is not None and target[0].selectable():
                 self.count("eval:mouse1_makes_focus")
-                now = self.walker.get_focus()[0]
-                if now is not target:
+                tw, _trow, tidx = target
+                if sum(1 for it in self.model if it is tw) > 1:
+                    self.count("eval:mouse1_on_repeated_widget_object")
+                now, nidx = self.focus_index()
+                if nidx != tidx:
+                    kind = "focus-not-on-pressed-item" if now is not tw else "focus-on-other-position-of-same-widget"
                     raise Failure(
                         "mouse1-focus",
-                        "focus-not-on-pressed-item",
-                        f"press(1) at col {col} row {row} on visible selectable item {target._c07} left focus on {getattr(now, '_c07', None)}",
+                        kind,
+                        f"press(1) at col {col} row {row} on visible selectable item {tw._c07} at list index {tidx} left focus on {getattr(now, '_c07', None)} at list index {nidx}",
                     )
         elif k == "set_focus":
             if n == 0:
@@ -395,9 +541,17 @@ class Run:
             self.size = (op[1], op[2])
         elif k == "lbfocus":
             self.lbfocus = bool(op[1])
-        elif k in ("insert", "delete", "replace", "clear"):
+        elif k in MUTATORS:
             try:
+                was = (n, self.focus_index()[1])
                 self.mutate(op, n)
+                if n and not self.model:
+                    self.emptied_with_focus = was[1]  # list just emptied; where the focus was
+                elif self.model and not n:
+                    if self.emptied_with_focus and k in ("iadd", "extend") and len(self.model) <= self.emptied_with_focus:
+                        self.count("cover:refill_by_iadd_or_extend_after_emptying_with_high_focus")
+                    self.count("cover:refill_after_emptying")
+                    self.emptied_with_focus = None
             except Exception as e:  # noqa: BLE001
                 raise Failure("raise", exckind(e), f"walker {op} raised {type(e).__name__}: {e}\n{traceback.format_exc(limit=8)}") from None
         else:
@@ -437,12 +591,103 @@ class Run:
             else:
                 wk.replace_at(idx, w)
             self.model[idx] = w
-        elif k == "clear":
-            if simple:
+        elif k in ("clear", "clearm"):
+            if not simple:
+                wk.clear_all()
+            elif k == "clear":
                 del wk[:]
             else:
-                wk.clear_all()
+                wk.clear()
             del self.model[:]
+        elif k in ("iadd", "extend"):
+            if n > GROW_LIMIT:
+                self.count("skipped:list_too_long")
+                return
+            ws = [self.make_item(r) for r in op[1]]
+            if simple:
+                if k == "iadd":
+                    wk += ws
+                    if wk is not self.walker:
+                        raise TypeError("walker += items returned another object")
+                else:
+                    wk.extend(ws)
+                self.model.extend(ws)
+            else:
+                for w in ws:
+                    if not wk.insert_at(len(self.model), w):
+                        self.count("skipped:no_room_for_key")
+                        break
+                    self.model.append(w)
+        elif k == "imul":
+            m = op[1]
+            if m == 2 and n > GROW_LIMIT // 2:
+                self.count("skipped:list_too_long")
+                return
+            if simple:
+                wk *= m
+                if wk is not self.walker:
+                    raise TypeError("walker *= n returned another object")
+                self.model *= m
+            elif m == 0:
+                wk.clear_all()
+                del self.model[:]
+            elif m == 2:
+                self.count("skipped:not_a_list_walker")
+        elif k == "setslice":
+            if n > GROW_LIMIT:
+                self.count("skipped:list_too_long")
+                return
+            ws = [self.make_item(r) for r in op[3]]
+            if simple:
+                wk[op[1] : op[2]] = ws
+                self.model[op[1] : op[2]] = ws
+            else:
+                start, stop, _st = slice(op[1], op[2]).indices(n)
+                for i in range(max(start, stop) - 1, start - 1, -1):
+                    wk.delete_at(i)
+                    del self.model[i]
+                for j, w in enumerate(ws):
+                    if not wk.insert_at(start + j, w):
+                        self.count("skipped:no_room_for_key")
+                        break
+                    self.model.insert(start + j, w)
+        elif k in ("pop", "remove"):
+            if n == 0:
+                self.count("skipped:delete_on_empty")
+                return
+            idx = op[1] if op[1] == -1 else op[1] % n
+            if k == "remove":
+                idx = next(i for i, it in enumerate(self.model) if it is self.model[idx])  # first occurrence
+            if not simple:
+                wk.delete_at(idx % n)
+            elif k == "pop":
+                got = wk.pop(idx)
+                if got is not self.model[idx]:
+                    raise TypeError("walker.pop(i) returned another object than walker[i]")
+            else:
+                wk.remove(self.model[idx])
+            del self.model[idx]
+        elif k in ("reverse", "sort"):
+            if not simple:
+                self.count("skipped:not_a_list_walker")
+            elif k == "reverse":
+                wk.reverse()
+                self.model.reverse()
+            else:
+                wk.sort(key=lambda w: w._c07["id"])
+                self.model.sort(key=lambda w: w._c07["id"])
+        elif k == "dup":
+            if n == 0 or n > GROW_LIMIT:
+                self.count("skipped:dup")
+                return
+            w = self.model[op[1] % n]
+            idx = op[2] % (n + 1)
+            if simple:
+                wk.insert(idx, wk[op[1] % n])
+            elif not wk.insert_at(idx, w):
+                self.count("skipped:no_room_for_key")
+                return
+            self.model.insert(idx, w)
 
     # ---- the oracle
     def render_and_check(self):
@@ -462,18 +707,18 @@ class Run:
             count("cover:render_served_from_cache")
         self.held = canv
         shown = [b.decode("ascii", "replace") for b in content]
-        fw, _fpos = self.walker.get_focus()
+        fw, fi = self.focus_index()
         # concatenation of all items at this width
         full = []
         owners = []
         span = None
-        for it in self.model:
-            rows = self.item_rows(it, maxcol, self.lbfocus and it is fw)
-            if it is fw:
+        for idx, it in enumerate(self.model):
+            rows = self.item_rows(it, maxcol, self.lbfocus and idx == fi)
+            if idx == fi:
                 span = (len(full), len(full) + len(rows))
             for i, t in enumerate(rows):
                 full.append(t)
-                owners.append((it, i))
+                owners.append((it, i, idx))
         count("eval:slice")
         if len(shown) != maxrow or any(len(t) != maxcol for t in shown):
             raise Failure("slice", "shape", f"canvas is {len(shown)} rows x {sorted({len(t) for t in shown})} cols for size {self.size}")
@@ -507,7 +752,7 @@ class Run:
         cands = valid
         # focus row visible
         if fw is not None and span is None:
-            raise Failure("focus-visible", "focus-widget-not-in-list", f"walker focus {fw!r} is not one of the list's items")
+            raise Failure("focus-visible", "focus-position-not-in-list", f"walker focus {self.walker.get_focus()!r} is not a position of the list holding that widget (list has {len(self.model)} items)")
         if span is not None:
             if span[0] == span[1]:
                 count("na:focus_has_zero_rows")
@@ -550,6 +795,10 @@ class Run:
             count("cover:focus_taller_than_box")
         if len(full) > maxrow:
             count("cover:list_longer_than_box")
+        if len({id(it) for it in self.model}) < len(self.model):
+            count("cover:list_with_repeated_widget_object")
+            if len({id(owners[p + i][0]) for i in range(k)}) < len({owners[p + i][2] for i in range(k)}):
+                count("cover:repeated_widget_object_visible_twice")
         if any(it._c07["t"] == "pile0" or (it._c07["t"] != "edit" and self.item_height(it, maxcol) == 0) for it in self.model):
             count("cover:zero_row_item_in_list")
         self.layout = (cands, owners, shown)
@@ -606,6 +855,28 @@ class Run:
         return None
 
 
+def map_op(op, fn):
+    k = op[0]
+    if k in ("insert", "replace"):
+        return [k, op[1], fn(op[2])]
+    if k in ("iadd", "extend"):
+        return [k, [fn(r) for r in op[1]]]
+    if k == "setslice":
+        return [k, op[1], op[2], [fn(r) for r in op[3]]]
+    return op
+
+
+def map_case(case, fn):
+    """apply fn to every item recipe of the case (initial items and the ones carried by ops)"""
+    return dict(case, items=[fn(r) for r in case["items"]], ops=[map_op(o, fn) for o in case["ops"]])
+
+
+def all_recipes(case):
+    out = {}
+    map_case(case, lambda r: out.setdefault(r["id"], r))
+    return out
+
+
 def lift_zero(r):
     """the same item with at least one row"""
     if r["t"] == "pile0":
@@ -635,13 +906,16 @@ def classify(wit, base, st):
     The shrinker removes every feature it can while the base signature (clause, kind of mismatch / exception
     site) still reproduces: 0-row items are given a row, the walker is turned into SimpleFocusListWalker, the
     ListBox is given focus.  What is left in the witness is therefore necessary for it, and is named:
-    zero=<focus|view|none>, walker=<any|dictv1|dictv2> (a custom walker is named only if neither simple walker
-    reproduces it), listbox=unfocused."""
+    zero=<focus|view|none>, walker=<any|slw|sflw|dictv1|dictv2> (a walker is named only if no other walker class
+    reproduces it), listbox=unfocused, list=repeated-widget-object (the same widget object at two positions)."""
     zero = {"focus": "focus", "view": "view", "list": "view", "none": "none"}[st["zero"]]
     walker = wit["walker"]
-    if walker in ("slw", "sflw") or reproduces(dict(wit, walker="sflw"), base) or reproduces(dict(wit, walker="slw"), base):
-        walker = "any"  # not specific to a custom walker
+    others = {"slw": ("sflw", "dictv2"), "sflw": ("slw", "dictv2")}.get(walker, ("sflw", "slw"))
+    if any(reproduces(dict(wit, walker=o), base) for o in others):
+        walker = "any"  # not specific to one walker class
     sig = base
+    if st.get("repeat"):
+        sig += "|list=repeated-widget-object"
     if not wit["lbfocus"] or any(o[0] == "lbfocus" for o in wit["ops"]):
         if not reproduces(dict(wit, lbfocus=True, ops=[o for o in wit["ops"] if o[0] != "lbfocus"]), base):
             sig += "|listbox=unfocused"
@@ -728,22 +1002,30 @@ def shrink(case, base, step, max_runs=220):
             if same(c):
                 best = c
                 progress = True
-        # simplify items (initial and inside ops)
-        for i, r in enumerate(best["items"]):
+        # drop elements of the item lists carried by iadd / extend / setslice
+        for i in range(len(best["ops"]) - 1, -1, -1):
+            op = best["ops"][i]
+            li = {"iadd": 1, "extend": 1, "setslice": 3}.get(op[0])
+            if li is None:
+                continue
+            j = len(op[li]) - 1
+            while j >= 0:
+                op = best["ops"][i]
+                nop = list(op)
+                nop[li] = op[li][:j] + op[li][j + 1 :]
+                c = dict(best, ops=best["ops"][:i] + [nop] + best["ops"][i + 1 :])
+                if same(c):
+                    best = c
+                    progress = True
+                j -= 1
+        # simplify items: one recipe per ident, changed at every place it occurs (initial list and inside ops)
+        for ident, r in all_recipes(best).items():
             for v in variants_item(r):
-                c = dict(best, items=best["items"][:i] + [v] + best["items"][i + 1 :])
+                c = map_case(best, lambda x, ident=ident, v=v: v if x["id"] == ident else x)
                 if same(c):
                     best = c
                     progress = True
                     break
-        for i, op in enumerate(best["ops"]):
-            if op[0] in ("insert", "replace"):
-                for v in variants_item(op[2]):
-                    c = dict(best, ops=best["ops"][:i] + [[op[0], op[1], v]] + best["ops"][i + 1 :])
-                    if same(c):
-                        best = c
-                        progress = True
-                        break
     return best
 
 
